@@ -97,7 +97,7 @@ func reorderWKB(b []byte, pick func() bool) []byte {
 func wkbOnPanic(c Case) Event {
 	e := Event{"t": "Point", "ct": "XY", "c": []string{}}
 	return Event{"kind": c.str("kind"), "g": e, "bytes": []int{}, "bytes2": []int{}, "dec2": e, "dec2err": "", "dec": e, "decerr": "", "valerr": "", "reenc": false, "append": false,
-		"trail": false, "value": false, "valid": false, "scan": []bool{}, "scansame": false, "null": []bool{}}
+		"trail": false, "value": false, "valid": false, "scan": []bool{}, "scansame": false, "null": []bool{}, "stable": true}
 }
 
 func scanInto(i int, b []byte) (geom.Geometry, error) {
@@ -159,6 +159,9 @@ func wkbExec(c Case) Event {
 	ev["g"] = tree
 	bs := g.AsBinary()
 	ev["bytes"] = bytesInts(bs)
+	keep := append([]byte(nil), bs...)
+	// a result belongs to the caller: whatever is called afterwards (below) must leave it alone
+	defer func() { ev["stable"] = bytes.Equal(bs, keep) }()
 	dg, err := geom.UnmarshalWKB(bs, geom.NoValidate{})
 	if err != nil {
 		ev["decerr"] = errStr(err)
